@@ -344,7 +344,45 @@ func (w *lockWorld) accesses(want func(owner *types.Named, f *types.Var) bool) [
 					if fld := fieldOfAddr(fa2); fld != nil {
 						if owner := ownerOf(fa2.X.Type()); owner != nil && want(owner, fld) {
 							_, isAlloc := fa2.X.(*ssa.Alloc)
-							out = append(out, fieldAccess{fn: f, instr: fa2, at: i, field: fld, write: false, held: held.clone(), fresh: isAlloc})
+							// an inner map or slice taken out of the field's
+							// map (`m := x.f[k]`) and written (`m[j] = v`,
+							// `delete(m, j)`) is a write to what the field
+							// guards, not a read
+							wr := false
+							if lk, isLk := i.(*ssa.Lookup); isLk && lk.Referrers() != nil {
+								inner := []ssa.Value{lk}
+								for _, ref := range *lk.Referrers() {
+									if ex, isEx := ref.(*ssa.Extract); isEx && ex.Index == 0 {
+										inner = append(inner, ex)
+									}
+								}
+								for _, iv := range inner {
+									if iv.Referrers() == nil {
+										continue
+									}
+									for _, ref := range *iv.Referrers() {
+										switch y := ref.(type) {
+										case *ssa.MapUpdate:
+											if y.Map == iv {
+												wr = true
+											}
+										case *ssa.Call:
+											if callName(y.Common()) == "builtin.delete" && y.Common().Args[0] == iv {
+												wr = true
+											}
+										case *ssa.IndexAddr:
+											if y.X == iv && y.Referrers() != nil {
+												for _, r3 := range *y.Referrers() {
+													if st, isSt := r3.(*ssa.Store); isSt && st.Addr == ssa.Value(y) {
+														wr = true
+													}
+												}
+											}
+										}
+									}
+								}
+							}
+							out = append(out, fieldAccess{fn: f, instr: fa2, at: i, field: fld, write: wr, held: held.clone(), fresh: isAlloc})
 						}
 					}
 				}
